@@ -1,14 +1,21 @@
 import ColoVerif.Proofs.DetOpt
+import ColoVerif.Proofs.DetOptHpwlDirty
 /-!
 # C05 — detailed placement never worsens wirelength
 
-Model: the acceptance rules of `DetailedPlacer` (Model/DetOpt.lean) over the `DetPlace` moves, for
-any objective that depends on the cell positions only (`Value`; this is what `IncrNetModel`
-computes, its pin offsets being frozen when it is built).
+Model: the acceptance rules of `DetailedPlacer` (Model/DetOpt.lean) over the `DetPlace` moves, and
+the whole object `DetailedPlacer = (placement_, xtopo_, ytopo_)` (Model/DetIncr.lean): the two
+`IncrNetModel`s of C09 built from the circuit at construction and told about every move through
+`updateCellPos` exactly as `doSwap / doInsert / runShiftsOnCells / RowReordering::writeback` do.
+
+* the first block is about *any* objective that depends on the cell positions only (`Value`);
+* the second block instantiates it with the real one: `value_eq_hpwl_if_orient_kept` (the maintained
+  `value()` is `Circuit::hpwl()` of the exported circuit while the export has the orientations the
+  models were built with), `optimiser_evaluates_circuit_value`, `hpwl_monotone_orient_kept`.
 
 The property itself is **false on the tree** (known finding KF-C05-1): `Circuit::hpwl()` uses the
 current orientation of every cell, `IncrNetModel` the one at construction; `hpwl_can_increase`
-exhibits it.  What is proved is monotonicity of the optimiser's own value along accepted moves.
+exhibits it, `hpwl_monotone_full_statement` stays a statement.
 -/
 namespace ColoVerif.C05
 open ColoVerif ColoVerif.DetPlace ColoVerif.DetPlace.State
@@ -128,13 +135,10 @@ inductive Monotone (V : Value) : State → State → Prop
   | refl (s) : Monotone V s s
   | step {s t u} : Monotone V s t → u.value V ≤ t.value V → Monotone V s u
 
-/-- Honest partial statement of C05: along any history whose moves are accepted swaps / inserts
-(`accepted_move_decreases`), reordering write-backs of a strictly better leaf whose evaluation is
-faithful, or shifts that do not increase the value (NetworkSimplex optimality — assumed), the
-optimiser's value never increases.  Not covered: that this value equals `Circuit::hpwl()` — true
-only while no cell's orientation differs from the one the incremental model was built with
-(KF-C05-1). -/
-theorem hpwl_monotone_partial (V : Value) {s t : State} (m : Monotone V s t) : t.value V ≤ s.value V := by
+/-- Value level, for any position-only objective: along any history of moves none of which increases
+the value, the optimiser's value never increases.  The connection with `Circuit::hpwl()` is
+`hpwl_monotone_orient_kept` (= `hpwl_monotone_partial`) below. -/
+theorem value_monotone (V : Value) {s t : State} (m : Monotone V s t) : t.value V ≤ s.value V := by
   induction m with
   | refl => exact Int.le_refl _
   | step _ hle ih => exact Int.le_trans hle ih
@@ -173,6 +177,216 @@ theorem hpwl_can_increase :
        | .error _ => false
      | .error _ => false) = true := by decide
 
+/-! ## the real objective: C09's incremental models inside `DetailedPlacer` -/
+
+/-- **value() = hpwl().**  `p` is the `DetailedPlacer` object after any history of primitive moves from
+its construction on circuit `c` (each move = the placement change followed by the `updateCellPos`
+calls of the code).  If no cell of the exported circuit has another orientation than in `c` (the
+orientations the two incremental models were built with), the incrementally maintained
+`xtopo_.value() + ytopo_.value()` is `Circuit::hpwl()` of the exported circuit.  Uses C09:
+`incr_inv` (through `IncrNet.Good`), `incr_init`, `detailed_value_is_hpwl`. -/
+theorem value_eq_hpwl_if_orient_kept (c : Circuit) (p0 p : Placer) (ops : List Op)
+    (h0 : Placer.init c = .ok p0) (hr : p0.run ops = .ok p)
+    (hk : ∀ i, ((exportPlacement p.pl c).cell i).orient = (c.cell i).orient) :
+    p.value = (exportPlacement p.pl c).hpwl := by
+  obtain ⟨hs0, e0⟩ := init_sync h0
+  obtain ⟨hs, er⟩ := run_sync ops p0 p hs0 hr
+  rw [hs.value]
+  exact circuitValue_eq_hpwl c p.pl hk (frame_fixed e0 (run_frame er))
+
+/-- the flag printed by the driver and the harness (`Placer.orientKept`) is a sufficient form of the
+hypothesis of `value_eq_hpwl_if_orient_kept` -/
+theorem value_eq_hpwl_if_orientKept_flag (c : Circuit) (p0 p : Placer) (ops : List Op)
+    (h0 : Placer.init c = .ok p0) (hr : p0.run ops = .ok p) (hk : p.orientKept c = true) :
+    p.value = (exportPlacement p.pl c).hpwl :=
+  value_eq_hpwl_if_orient_kept c p0 p ops h0 hr (orientKept_spec hk)
+
+/-- **The glue is sound.**  After any history the placement component of the object is the `DetPlace`
+model's state after the same history, both incremental models pass `IncrNetModel::check()`
+(maintained bounds and value = from-scratch recomputation), and `value()` is the position-only
+objective `circuitValue c` at the placement's positions — whatever happened to the orientations. -/
+theorem placer_in_sync (c : Circuit) (p0 p : Placer) (ops : List Op)
+    (h0 : Placer.init c = .ok p0) (hr : p0.run ops = .ok p) :
+    fromIspdCircuit c = .ok p0.pl ∧ p0.pl.run ops = .ok p.pl ∧
+    p.xt.consistent = true ∧ p.yt.consistent = true ∧
+    p.value = p.pl.value (circuitValue c) := by
+  obtain ⟨hs0, e0⟩ := init_sync h0
+  obtain ⟨hs, er⟩ := run_sync ops p0 p hs0 hr
+  refine ⟨e0, er, ?_, ?_, hs.value⟩
+  · exact (C09.incr_inv p.xt hs.x.good []).2.2.1
+  · exact (C09.incr_inv p.yt hs.y.good []).2.2.1
+
+/-- **What the optimiser evaluates.**  On the object reached by any history, `valueOnSwap` /
+`valueOnInsert` (update both models to the candidate positions, read `value()`, update back) return
+the position-only objective at the candidate positions *and* leave the object exactly as it was
+(state equality); hence `bestSwap` / `bestSwapUpdate` / `bestInsert` choose what the modelled
+acceptance rule chooses for `circuitValue c`. -/
+theorem optimiser_evaluates_circuit_value (c : Circuit) (p0 p : Placer) (ops : List Op)
+    (h0 : Placer.init c = .ok p0) (hr : p0.run ops = .ok p) :
+    (∀ c1 c2, p.pl.validCell c1 → p.pl.validCell c2 →
+      (p.valueOnSwap c1 c2).1 = p.pl.valueOnSwap (circuitValue c) c1 c2 ∧ (p.valueOnSwap c1 c2).2 = p) ∧
+    (∀ k r q, p.pl.validCell k →
+      (p.valueOnInsert k r q).1 = p.pl.valueOnInsert (circuitValue c) k r q ∧ (p.valueOnInsert k r q).2 = p) ∧
+    (∀ k cands, p.pl.validCell k → (∀ b ∈ cands, p.pl.validCell b) →
+      p.bestSwapChoice k cands = p.pl.bestSwapChoice (circuitValue c) k cands) ∧
+    (∀ k r cands, p.pl.validCell k →
+      p.bestInsertChoice k r cands = p.pl.bestInsertChoice (circuitValue c) k r cands) := by
+  have hs := (run_sync ops p0 p (init_sync h0).1 hr).1
+  exact ⟨fun _ _ v1 v2 => valueOnSwap_eq hs v1 v2, fun _ _ _ v => valueOnInsert_eq hs v,
+    fun _ _ vk vc => bestSwapChoice_eq hs vk vc, fun _ _ _ vk => bestInsertChoice_eq hs vk⟩
+
+/-- **`RowReordering::run` repairs the models it dirtied.**  The enumeration leaves `xtopo_` / `ytopo_` at
+the positions of the last evaluated leaf (`dirt`: arbitrary `updateCellPos` calls on registered cells).
+Whatever they are, the pass ends in the object obtained from clean models; its placement component is
+the modelled keep-best decision for the real objective; the object is in sync again; and when no leaf
+was better it is *equal* to the object before the pass (state equality, not only value). -/
+theorem reorder_pass_from_dirty_models (c : Circuit) (p0 p : Placer) (ops : List Op)
+    (h0 : Placer.init c = .ok p0) (hr : p0.run ops = .ok p)
+    (dirt : List (Int × Int × Int)) (cells : List Int) (leaves : List Leaf)
+    (hd : ∀ m ∈ dirt, m.1 ∈ cells) (hv : ∀ k ∈ cells, p.pl.validCell k) (q : Placer)
+    (e : p.reorderRun dirt cells leaves = .ok q) :
+    p.reorderRun [] cells leaves = .ok q ∧
+    p.pl.reorderDecision (circuitValue c) cells leaves = .ok q.pl ∧
+    q.value = q.pl.value (circuitValue c) ∧
+    ((keepBest p.value leaves none).2 = none → q = p) := by
+  have hs := (run_sync ops p0 p (init_sync h0).1 hr).1
+  unfold Placer.reorderRun at e ⊢
+  unfold State.reorderDecision
+  rw [← hs.value]
+  cases hk : (keepBest p.value leaves none).2 with
+  | none =>
+    simp only [hk] at e ⊢
+    rw [dirty_restore_eq hs dirt cells hd hv] at e
+    injection e with e; subst e
+    refine ⟨?_, rfl, hs.value, fun _ => rfl⟩
+    rw [dirty_restore_eq hs [] cells (by simp) hv]
+  | some leaf =>
+    simp only [hk] at e ⊢
+    obtain ⟨e', hq⟩ := dirty_writeback_eq hs dirt cells leaf.regions hd hv e
+    exact ⟨e', (reorderWriteback_sync hs e').2, hq.value, fun h => by cases h⟩
+
+/-- a leaf of `RowReordering` whose recorded value is what `runOrdering` reads when it evaluates it:
+the objective with every registered cell at the leaf's position on its region's row -/
+def FaithfulLeaf (V : Value) (s : State) (l : Leaf) : Prop := l.value = s.leafValue V l.regions
+
+/-- one move the optimiser makes: a swap / insert chosen by the acceptance rule (`bestSwap`,
+`bestSwapUpdate`, `bestInsert`), a shift write-back that does not increase the value (optimality of
+lemon's NetworkSimplex: **assumed**, checked on every logged shift), or a `RowReordering` pass
+(keep-best over faithfully evaluated leaves, write back or leave alone) -/
+inductive Accepted (V : Value) : State → State → Prop
+  | swap {s t : State} (k b : Int) (cands : List Int) :
+      s.bestSwapChoice V k cands = some b → s.step (.swap k b) = .ok t → Accepted V s t
+  | insert {s t : State} (k r b : Int) (cands : List Int) :
+      s.bestInsertChoice V k r cands = some b → s.step (.insert k r b) = .ok t → Accepted V s t
+  | shift {s t : State} (mv : List (Int × Int)) :
+      s.step (.shift mv) = .ok t → t.value V ≤ s.value V → Accepted V s t
+  | reorder {s t : State} (cells : List Int) (leaves : List Leaf) :
+      (∀ l ∈ leaves, FaithfulLeaf V s l) → s.reorderDecision V cells leaves = .ok t → Accepted V s t
+
+/-- `s`, then the successive states of a history of accepted moves -/
+inductive History (V : Value) : State → List State → Prop
+  | nil (s : State) : History V s []
+  | cons {s t : State} {rest : List State} : Accepted V s t → History V t rest → History V s (t :: rest)
+
+/-- an accepted move is a (possibly empty) history of the `DetPlace` model and does not increase the
+objective — strictly decreases it for swaps, inserts and written-back reorderings -/
+theorem accepted_not_worse (V : Value) {s t : State} (h : Inv s) (a : Accepted V s t) :
+    t.value V ≤ s.value V ∧ ∃ ops, s.run ops = .ok t := by
+  cases a with
+  | swap k b cands hch e =>
+    refine ⟨?_, [.swap k b], by simp [State.run, e]⟩
+    simp only [State.step] at e
+    split at e
+    · rename_i hg
+      simp only [Bool.and_eq_true] at hg
+      exact Int.le_of_lt (accepted_move_decreases V h ((liveCell_iff _ _).1 hg.1).1 ((liveCell_iff _ _).1 hg.2).1 hch e)
+    · cases e
+  | insert k r b cands hch e =>
+    refine ⟨?_, [.insert k r b], by simp [State.run, e]⟩
+    simp only [State.step] at e
+    split at e
+    · exact Int.le_of_lt (accepted_insert_decreases V hch e)
+    · cases e
+  | shift mv e hle => exact ⟨hle, [.shift mv], by simp [State.run, e]⟩
+  | reorder cells leaves hf e =>
+    rcases reorder_not_worse V s cells leaves with h1 | ⟨leaf, hmem, hlt, h2⟩
+    · rw [h1] at e
+      injection e with e; subst e
+      exact ⟨Int.le_refl _, [], rfl⟩
+    · rw [h2] at e
+      refine ⟨?_, [.reorder cells leaf.regions], by simp [State.run, State.step, e]⟩
+      rw [reorderWriteback_value V e, ← hf leaf hmem]
+      exact Int.le_of_lt hlt
+
+/-- **C05 while orientations are kept.**  `c` is the legalized circuit handed to detailed placement,
+`s0` the placement constructed from it.  Along any history of moves accepted by the optimiser's rules
+for its real objective (`circuitValue c` — by `placer_in_sync` / `optimiser_evaluates_circuit_value`
+what `value()`, `valueOnSwap`, `valueOnInsert` compute on the real object), if the export of every
+state has the orientations of `c`, then the HPWL of the exported circuit never increases: every later
+state is at most every earlier one (in particular at successive callbacks), all are at most the
+initial one, and the initial one is the HPWL of the legalized circuit.
+Assumed: `Inv s0` (C02: `inv_init`), per-shift `value' ≤ value` (inside `Accepted.shift`). -/
+theorem hpwl_monotone_orient_kept (c : Circuit) (s0 : State) (states : List State)
+    (h0 : fromIspdCircuit c = .ok s0) (hinv : Inv s0)
+    (hist : History (circuitValue c) s0 states)
+    (hk : ∀ t ∈ states, ∀ i, ((exportPlacement t c).cell i).orient = (c.cell i).orient) :
+    List.Pairwise (fun a b => (exportPlacement b c).hpwl ≤ (exportPlacement a c).hpwl) (s0 :: states) ∧
+    (exportPlacement s0 c).hpwl = c.hpwl := by
+  refine ⟨?_, (init_value h0).2⟩
+  -- generalise over the current state: reachable, invariant, orientations kept
+  have key : ∀ (states : List State) (s : State), Inv s → Frame s0 s →
+      (∀ i, ((exportPlacement s c).cell i).orient = (c.cell i).orient) →
+      History (circuitValue c) s states →
+      (∀ t ∈ states, ∀ i, ((exportPlacement t c).cell i).orient = (c.cell i).orient) →
+      List.Pairwise (fun a b => (exportPlacement b c).hpwl ≤ (exportPlacement a c).hpwl) (s :: states) := by
+    intro states
+    induction states with
+    | nil => intro s _ _ _ _ _; exact List.pairwise_singleton _ _
+    | cons t rest ih =>
+      intro s hi hf hks hh hkr
+      cases hh with
+      | cons a hrest =>
+        obtain ⟨hle, ops, er⟩ := accepted_not_worse _ hi a
+        have hft : Frame s0 t := hf.trans (run_frame er)
+        have hkt := hkr t (List.mem_cons_self ..)
+        have pw := ih t (run_inv hi er) hft hkt hrest (fun u hu => hkr u (List.mem_cons_of_mem _ hu))
+        have es := circuitValue_eq_hpwl c s hks (frame_fixed h0 hf)
+        have et := circuitValue_eq_hpwl c t hkt (frame_fixed h0 hft)
+        have hst : (exportPlacement t c).hpwl ≤ (exportPlacement s c).hpwl := by rw [← es, ← et]; exact hle
+        rw [List.pairwise_cons]
+        refine ⟨?_, pw⟩
+        intro u hu
+        rcases List.mem_cons.1 hu with rfl | hu'
+        · exact hst
+        · exact Int.le_trans ((List.pairwise_cons.1 pw).1 u hu') hst
+  exact key states s0 hinv (Frame.refl s0) (init_orient_kept h0) hist hk
+
+/-- The proved part of `hpwl_monotone_full_statement` under the name DESIGN.md gives it: this *is*
+`hpwl_monotone_orient_kept`.  Missing with respect to the full statement: histories in which a move
+changes an orientation (there the statement is false: `hpwl_can_increase`, KF-C05-1); shift steps are
+covered only under the per-step premise `value' ≤ value` (NetworkSimplex optimality, assumed); the
+moves must be the ones the modelled acceptance rules choose (tied to the loops of the code by the
+hook-H3 replay); `Inv s0` is C02's `inv_init`. -/
+theorem hpwl_monotone_partial (c : Circuit) (s0 : State) (states : List State)
+    (h0 : fromIspdCircuit c = .ok s0) (hinv : Inv s0)
+    (hist : History (circuitValue c) s0 states)
+    (hk : ∀ t ∈ states, ∀ i, ((exportPlacement t c).cell i).orient = (c.cell i).orient) :
+    List.Pairwise (fun a b => (exportPlacement b c).hpwl ≤ (exportPlacement a c).hpwl) (s0 :: states) ∧
+    (exportPlacement s0 c).hpwl = c.hpwl :=
+  hpwl_monotone_orient_kept c s0 states h0 hinv hist hk
+
+/-- KF-C05-1 on the whole object: on the same witness `bestInsert` — evaluating the *real* maintained
+objective through `valueOnInsert` — accepts inserting cell 0 at the head of row 0; `value()` goes from
+10 to 8, the orientation flag drops, and `Circuit.hpwl` of the export goes from 10 to 14.  So the
+hypothesis of `hpwl_monotone_orient_kept` cannot be removed. -/
+theorem hpwl_can_increase_on_object :
+    (match Placer.init kfBefore with
+     | .ok p => (p.bestInsertChoice 0 0 [-1] == some (-1)) && decide (p.value = 10) && p.orientKept kfBefore &&
+       (match p.step (.insert 0 0 (-1)) with
+        | .ok q => decide (q.value = 8 ∧ (exportPlacement q.pl kfBefore).hpwl = 14) && !q.orientKept kfBefore
+        | .error _ => false)
+     | .error _ => false) = true := by decide
+
 /-! non-vacuity of `accepted_move_decreases`: on a two-cell row, with V = distance of cell 0 to
 abscissa 9, the scan accepts swapping 0 and 1 -/
 example :
@@ -183,5 +397,44 @@ example :
      | .ok s => decide (Inv s) && (s.bestSwapChoice V 0 [0, 1] == some 1) &&
                 (match s.swap 0 1 with | .ok t => decide (t.value V < s.value V) | .error _ => false)
      | .error _ => false) = true := by decide
+
+
+/-! non-vacuity of the second block: cell 0 is tied to a fixed pin on its right; `bestSwap` (for the
+real objective) accepts swapping it with its right neighbour; the history is accepted, no
+orientation changes, the HPWL goes from 12 (the legalized circuit's) to 9 -/
+def exC : Circuit :=
+  { cells := [⟨2, 2, 0, 0, .N, false, false, .ANY⟩, ⟨3, 2, 4, 0, .N, false, false, .ANY⟩, ⟨1, 1, 12, 0, .N, true, false, .ANY⟩],
+    nets := [⟨1, 0, [⟨0, 0, 0⟩, ⟨2, 0, 0⟩]⟩], rows := [⟨⟨0, 10, 0, 2⟩, .N⟩] }
+
+example : ∃ s0 t, fromIspdCircuit exC = .ok s0 ∧ Inv s0 ∧ History (circuitValue exC) s0 [t] ∧
+    (∀ i, ((exportPlacement t exC).cell i).orient = (exC.cell i).orient) ∧
+    exC.hpwl = 12 ∧ (exportPlacement t exC).hpwl = 9 := by
+  obtain ⟨s0, e0, hi, hch, hstep⟩ := ok_of_check (x := fromIspdCircuit exC)
+    (P := fun s => Inv s ∧ s.bestSwapChoice (circuitValue exC) 0 [0, 1] = some 1 ∧
+      checkOk (s.step (.swap 0 1)) (fun t =>
+        (⟨t, IncrNet.xTopologyAll exC, IncrNet.yTopologyAll exC⟩ : Placer).orientKept exC = true ∧
+        (exportPlacement t exC).hpwl = 9) = true) (by decide)
+  obtain ⟨t, e1, hk, h9⟩ := ok_of_check hstep
+  exact ⟨s0, t, e0, hi, .cons (.swap 0 1 [0, 1] hch e1) (.nil t), orientKept_spec hk, by decide, h9⟩
+
+/-! non-vacuity of `value_eq_hpwl_if_orient_kept`: the object after the same swap -/
+example : (match Placer.init exC with
+    | .ok p0 => match p0.run [.swap 0 1] with
+      | .ok p => p.orientKept exC && decide (p.value = 9)
+      | .error _ => false
+    | .error _ => false) = true := by decide
+
+/-! non-vacuity of `reorder_pass_from_dirty_models`: a reordering pass over cells 1, 0 whose enumeration
+left the models dirty; with a strictly better leaf (cell 1 at 0, cell 0 at 3: value 9 < 12) it is written
+back and the object is in sync; with no better leaf both models are exactly the ones before the pass -/
+example : (match Placer.init exC with
+    | .ok p =>
+      (match p.reorderRun [(0, 7, 0), (1, 1, 0)] [1, 0] [⟨9, [⟨0, -1, [(1, 0), (0, 3)]⟩]⟩] with
+       | .ok q => decide (q.value = 9 ∧ (exportPlacement q.pl exC).hpwl = 9)
+       | .error _ => false) &&
+      (match p.reorderRun [(0, 7, 0)] [1, 0] [⟨12, []⟩] with
+       | .ok q => decide (q.xt = p.xt ∧ q.yt = p.yt ∧ q.value = 12)
+       | .error _ => false)
+    | .error _ => false) = true := by decide
 
 end ColoVerif.C05
